@@ -210,6 +210,158 @@ def run_word(cfg, word):
     return run
 
 
+# ------------------------------------------------------------------ driver 2: what reaches the brokers
+# The REAL KafkaClient between the producer and scripted brokers (props/producer_c01_lib.py Run2: real
+# send_produce_request / _send_broker_aware_request / _handle_responses, a simulated cluster with several leaders).
+# The C09 clauses are read off the bytes the brokers were handed and the appends the cluster acknowledged.
+def wire_monitor(run):
+    from props import producer_c01_lib as CL
+    bad = []
+    first = {}       # (t, p) -> send ids in order of first appearance at a broker
+    appends = [(a[0], a[2], a[3], set(a[5])) for a in run.cluster.appends]      # (step, t, p, {(key, value)})
+    for (h, node, expect, _acks, pls) in run.handed:
+        tps = [(t, p) for (t, p, _kv) in pls]
+        if len(set(tps)) != len(tps):
+            bad.append((h, "one-payload: broker %d got a request with a topic-partition twice: %r" % (node, tps)))
+        for (t, p, kvs) in pls:
+            mids = CL.kv_mids(run, kvs)
+            if -1 in mids:
+                bad.append((h, "one-payload: broker %d got a message no accepted send contains (partition %r)" % (node, (t, p))))
+            if len(set(mids)) != len(mids):
+                bad.append((h, "one-payload: broker %d got a message twice in one payload %r: %r" % (node, (t, p), mids)))
+            # C09_never_resent on the wire: what a broker acknowledged (appended) is not handed to a broker again
+            if expect:
+                for (a, at, ap, akv) in appends:
+                    if a < h and (at, ap) == (t, p) and akv & set(kvs):
+                        bad.append((h, "never-resent: payload %r was acknowledged by its leader at step %d and is handed to broker %d "
+                                       "again (messages %r)" % ((t, p), a, node, mids)))
+                        break
+            # C09_order on the wire
+            lst = first.setdefault((t, p), [])
+            for m in mids:
+                sid = m // L.MID
+                if m >= 0 and sid not in lst:
+                    if lst and sid < lst[-1]:
+                        bad.append((h, "order: partition %r: send %d reaches a broker after send %d" % ((t, p), sid, lst[-1])))
+                    lst.append(sid)
+            sids = []
+            for m in mids:
+                if m >= 0 and (not sids or sids[-1] != m // L.MID):
+                    sids.append(m // L.MID)
+            expect_m = [sid * L.MID + j for sid in sorted(set(sids)) for j in range(PC.size_of(run, sid)[0])]
+            if -1 not in mids and mids != expect_m:
+                bad.append((h, "order: payload %r at broker %d carries %r, expected whole sends in submission order %r" % ((t, p), node, mids, expect_m)))
+    for p_ in run.problems[:3]:
+        bad.append((0, "driver: " + p_))
+    return bad
+
+
+def pol_fail_kth(k, kinds):
+    """policy for C01.drive: of the produce requests of the FIRST fan-out, the k-th in send order fails at the
+    transport (kind from kinds), every other request is answered honestly"""
+    state = {"n": 0}
+
+    def pol(run, br):
+        if br.req["key"] == 0:
+            i = state["n"]
+            state["n"] += 1
+            if i == k:
+                return ("bfail", br.rid, kinds[i % len(kinds)]) if kinds[i % len(kinds)] != "silent" else ("silent", br.rid)
+        return ("bans", br.rid, None)
+    return pol
+
+
+def wire_scenarios():
+    """two or three partitions led by different brokers, one batch with a payload for each, a transport failure at the
+    broker that is first / second / third in send order (the others acknowledge), then the retry"""
+    from props import producer_c01_lib as CL
+    from props import C01 as D
+    out = []
+    for seed in range(6):
+        for nb, nparts in ((2, 2), (3, 3), (2, 3)):
+            for acks in (1, -1):
+                cfg = D.base_cfg2(acks, True, 3, n=2 * nparts, nparts={0: nparts}, ntop=1, known=[0], nbrokers=nb, cluster_seed=seed)
+                probe = CL.make_run2(dict(cfg, script={}))
+                leaders = [probe.cluster.leader[(0, p)] for p in range(nparts)]
+                if len(set(leaders)) < 2:
+                    continue
+                for order in (list(range(nparts)), list(reversed(range(nparts)))):
+                    for k in range(len(set(leaders))):
+                        for kind in (PL_K("K_CONNLOST"), "silent"):
+                            c2 = dict(cfg, script={})
+                            run = D.scenario(c2, [(0, p) for p in order], pol_fail_kth(k, [kind]))
+                            out.append(("fail broker #%d in send order (%s), leaders %r, order %r, acks %d" % (k, kind, leaders, order, acks), run))
+    return out
+
+
+def PL_K(name):
+    return getattr(L, name)
+
+
+def cfg_wire(rnd):
+    from props import producer_c01_lib as CL
+    cfg = CL.gen_cfg2(rnd)
+    cfg["nbrokers"] = rnd.choice([2, 2, 3])
+    cfg["ntop"] = rnd.choice([1, 2])
+    cfg["nparts"] = {t: rnd.choice([2, 3]) for t in range(cfg["ntop"])}
+    cfg["known"] = list(range(cfg["ntop"]))
+    cfg["acks"] = rnd.choice([1, 1, -1])
+    cfg["batch"] = True
+    cfg["n"], cfg["b"], cfg["t"] = rnd.choice([2, 3, 4]), 0, rnd.choice([None, 5])
+    cfg["max"] = rnd.choice([2, 3, 4])
+    cfg["profile"] = rnd.choice(["drops", "mixed", "silent", "errcodes", "drops"])
+    cfg["partitioner"] = rnd.choice(["rr", "scripted", "hashed"])
+    cfg.pop("acks0_faults", None)
+    return cfg
+
+
+def check_wire(ck, rnd, nrandom):
+    """driver-2 stream of C09: directed multi-leader fault scenarios + seeded random histories; the wire monitor on
+    every run, every history also replayed on the extracted producer model"""
+    from props import producer_c01_lib as CL
+    runs, labels = [], []
+    for label, run in wire_scenarios():
+        runs.append(run)
+        labels.append(label)
+        ck.hist("wire_directed_scenarios")
+    for _ in range(nrandom):
+        run = CL.gen_run2(rnd, cfg_wire(rnd))
+        runs.append(run)
+        labels.append("random")
+        ck.hist("wire_random_histories")
+    nbad = 0
+    for run, label in zip(runs, labels):
+        ck.hist("wire_broker_requests", len(run.handed))
+        if len({n for (_h, n, _e, _a, _p) in run.handed}) > 1:
+            ck.hist("wire_runs_with_two_brokers")
+        msgs = wire_monitor(run)
+        if label != "random":
+            # the directed scenarios run to quiescence: a payload whose broker request failed must have been retried
+            unfired = [sid for sid, d in sorted(run.send_d.items()) if not d.called]
+            if unfired:
+                msgs.append((len(run.trace), "retry-exact: the batch is over, sends %r never fired: their failed payload was never retried" % (unfired,)))
+        if msgs:
+            nbad += 1
+            if nbad <= 3:
+                ck.violation({"kind": "C09 wire monitor failed (real Producer over the real KafkaClient, scripted brokers)", "scenario": label,
+                              "monitor": [list(m) for m in msgs[:5]], "theorems": ["C09_never_resent", "C09_retry_exact", "C09_order", "C09_one_payload"],
+                              "handed": [(h, n, [(t, p, CL.kv_mids(run, kv)) for (t, p, kv) in pls]) for (h, n, _e, _a, pls) in run.handed],
+                              "acknowledged": [(a[0], a[1], a[2], a[3], a[4], CL.kv_mids(run, a[5])) for a in run.cluster.appends],
+                              "cfg": CL.jsonable(run.cfg), "pyevents": CL.jsonable(run.pyevents), "replay_op": "wire"})
+            else:
+                ck.nviol = getattr(ck, "nviol", 0) + 1
+    cases = [r.case_line() for r in runs]
+    impl = [r.flat_trace() for r in runs]
+    label = "driver 2: Producer over the real KafkaClient with scripted brokers vs Model.Producer.run_case"
+    diffs, mo = ck.correspond(PC.MODEL, PC.MODULE, cases, impl, label, nontrivial=PC.nontrivial, describe=lambda c: {"line": c[:80]})
+    if diffs and not nbad:
+        i = diffs[0]
+        ck.violation({"kind": "correspondence broken: the Producer over the real KafkaClient no longer behaves like the proved model",
+                      "correspondence": "corr:producer:" + label, "theorems_no_longer_tied": THEOREMS, "scenario": labels[i],
+                      "cfg": CL.jsonable(runs[i].cfg), "pyevents": CL.jsonable(runs[i].pyevents), "impl_trace": runs[i].trace,
+                      "model_trace": PC.unflatten(mo[i]), "replay_op": "wire"}, no_input=True)
+
+
 def check_runs(ck, runs, label):
     nviol = 0
     flagged = set()
@@ -259,6 +411,8 @@ def run(ck):
     if chunk:
         check_runs(ck, chunk, label)
     ck.hist("small_scope_sequences", total)
+    # driver 2: what reaches the brokers through the real KafkaClient (several leaders, transport failures)
+    check_wire(ck, rnd, 100 * scale)
     if ck.tier == "thorough":
         ck.coqchk(["AV.Props.C09"])
     ck.cov["rule"] = ("seeded state-aware generator (random.Random(VERIF_SEED)) of event sequences over the real Producer (see C19) with a second "
@@ -285,4 +439,17 @@ def run(ck):
 
 
 def replay(rp):
+    if rp.get("replay_op") == "wire":
+        from props import producer_c01_lib as CL
+        run = CL.replay_run2(rp["cfg"], rp["pyevents"])
+        for (h, n, _e, _a, pls) in run.handed:
+            print("step %3d broker %d got %r" % (h, n, [(t, p, CL.kv_mids(run, kv)) for (t, p, kv) in pls]))
+        for a in run.cluster.appends:
+            print("step %3d broker %d acknowledged (%d,%d) at offset %d: %r" % (a[0], a[1], a[2], a[3], a[4], CL.kv_mids(run, a[5])))
+        msgs = wire_monitor(run)
+        for m in msgs:
+            print("MONITOR step %s: %s" % (m[0], m[1]))
+        unfired = [sid for sid, d in sorted(run.send_d.items()) if not d.called]
+        print("unfired sends:", unfired)
+        return 1 if msgs else 0
     return PC.replay(rp, monitor)
